@@ -23,6 +23,18 @@ CHECKS = {
         text="Every single fault and pair of faults at every rail call site of 2-3 turn conversations, both rail polarities, both Colang versions; generate must return, the reply must be refusal / internal error and never unapproved LLM text, and the following turn is judged with all rails active. Exhaustive within the bound; one known finding (Colang 2.x inverted-polarity rails fail open).",
         note="trusted: as C01; faults are exceptions raised by custom rail actions (LLM provider failures excluded by the statement); dialog-action faults not yet enumerated",
         design_ref="6/C03"),
+    "C06": dict(
+        category="model_checking", engine="Props2",
+        technique="TLA+ lifetime predicates (Props2: L1 keeper, L2 action life-cycle monitor, L2b stop-on-end) evaluated by TLC on states/steps/traces recorded from the real interpreter (generated programs with exhaustive short histories + random walks incl. action events early/late/twice/never, formula and library programs, the repository's own tests)",
+        text="Trace validation of the real interpreter against the TLA+ judge: every recorded State (about 4e4 quick) must give every running instance a listening keeper; every trace must satisfy the action life-cycle automaton (one Start, Stop only for started/not finished/not stopped actions) and every step in which a flow ends must Stop the unfinished actions it alone owns. Exhaustive only over histories of depth 2 per program; deeper histories are seeded walks.",
+        note="trusted: projection (harness/colang2.project_state), event classification in v2corpus.step_record; L3 (exact restart count of activated flows) judged only through L1; spec-level exploration of all histories is ColangSM's job",
+        design_ref="6/C06"),
+    "C09": dict(
+        category="model_checking", engine="Props2",
+        technique="TLA+ quiescence / index-exactness predicates (Props2.C09) evaluated by TLC on every State recorded after run_to_completion of the real interpreter over the same corpus; the from-scratch scan is computed in TLA+ from the projected heads and compared with the real event_matching_heads index and its reverse map",
+        text="Every recorded state: queue empty, every live head of a listening flow parked on match/WaitForHeads, done instances hold no heads, referenced actions/children/parents exist, dispatch index == from-scratch scan (no stale, missing or duplicate entry), reverse map its inverse, flow_id_states consistent; exceptions escaping run_to_completion are reported too.",
+        note="trusted: projection; exhaustive over histories of depth 2 per generated program, seeded walks beyond; library flows driven by scripted utterance events",
+        design_ref="6/C09"),
     "C07": dict(
         category="model_checking", engine="Formula",
         technique="boolean-formula judge in TLA+ (Formula.tla: Eval / FirstSat); TLC enumerates every and/or formula over distinct atoms up to the bound; each is compiled by the real expander in four statement forms and driven with all event sequences; recorded first-completion steps judged by TLC",
@@ -53,6 +65,12 @@ CHECKS = {
         text="TLC enumerates every (pattern, value) pair of a bounded space (7 atoms, 3 regexes, lists/sets/dicts, depth <= 1; thorough: depth-2 patterns with values derived by <= 2 Add/Drop/Swap/Alter/Nest mutation steps explored as a transition system) and the event-level rule cases; each is executed by the real interpreter (`match Probe(v=$p)`), and the recorded advance/no-advance observations are judged by the TLA+ rule M / EventMatch. Exhaustive within the bound.",
         note="trusted: MatchRules.tla as the reading of the documented rules (lists as subsequence, as the statement says); bool-vs-int pairs not judged; patterns injected through a global variable, a sample through literal source",
         design_ref="6/C04"),
+    "C19": dict(
+        category="model_checking", engine="EmbedBatch",
+        technique="TLA+ spec of the batching protocol and cache decorator (EmbedBatch.tla: one action per critical section between awaits) model-checked with TLC (safety + liveness under weak fairness, no state constraint); the real BasicEmbeddingsIndex run on a deterministic virtual-time asyncio loop over exhaustive arrival/latency/hold/batch-size grids; recorded traces validated against the spec's actions and judged by TLA+ predicates (Trace_Embed)",
+        text="Design decided for N <= 4/5 requesters, MaxBatch 1-3, three cache modes (each requester gets Embed(own text), input order, result present when read, no spin, all requesters complete). Implementation bound by 3.6k (quick) / 31k (thorough) distinct recorded traces of real schedules, all accepted, plus cache/key-generator/store combinations and the add/build/search path compared with an unbatched, uncached reference index.",
+        note="trusted: harness/vloop.py (FIFO virtual time), the VerifEmbed fake engine (injective, never fails), harness-side logging wrappers cross-checked against a plain run; redis store not exercised",
+        design_ref="6/C19"),
     "C20": dict(
         category="model_checking", engine="Server",
         technique="TLA+ specs PathModel (posixpath join/normpath + the server's acceptance test, judge Inside(root, path)) and Server (thread store transition system) model-checked with TLC; every TLC-generated config id / request sequence replayed through the real FastAPI app (TestClient, recording stubs for RailsConfig.from_path / LLMRails); recorded observations judged by TLC (Judge_PathModel, Trace_Server)",
